@@ -644,11 +644,28 @@ pub fn index(cx: &mut Ctx, smi: &SourceMapIndex, full: bool) {
                 decoded(cx, m, false);
                 cx.depth -= 1;
             }
-            // positions of nested tokens, shifted by the offset
-            if let DecodedMap::Regular(sm) = m {
+            // positions of nested tokens, shifted by the offset (regular and Hermes sections
+            // directly, nested index sections one level down)
+            let mut shifted = |sm: &SourceMap, l: u32, c: u32, positions: &mut Vec<(u32, u32)>| {
                 for t in sm.tokens().take(6) {
                     let (tl, tc) = t.get_dst();
                     positions.push((tl.wrapping_add(l), if tl == 0 { tc.wrapping_add(c) } else { tc }));
+                }
+            };
+            match m {
+                DecodedMap::Regular(sm) => shifted(sm, l, c, &mut positions),
+                DecodedMap::Hermes(smh) => shifted(smh, l, c, &mut positions),
+                DecodedMap::Index(inner) => {
+                    for s2 in inner.sections().take(3) {
+                        let (l2, c2) = s2.get_offset();
+                        let (ll, cc) = (l.wrapping_add(l2), if l2 == 0 { c.wrapping_add(c2) } else { c2 });
+                        positions.push((ll, cc));
+                        match s2.get_sourcemap() {
+                            Some(DecodedMap::Regular(sm)) => shifted(sm, ll, cc, &mut positions),
+                            Some(DecodedMap::Hermes(smh)) => shifted(smh, ll, cc, &mut positions),
+                            _ => {}
+                        }
+                    }
                 }
             }
         }
